@@ -1472,6 +1472,83 @@ def rules(rep, m):
         else:
             r12.ok()
 
+    # R-C18-13 -----------------------------------------------------------
+    r13 = rep.rule("R-C18-13", "the coefficient at lag 0 is 1 on every path: whatever way cmb_dataset_ACF / cmb_dataset_PACF is left "
+                   "(constant data, any lag count), the last write that reaches element 0 of the result array stores 1 - a "
+                   "whole-array wipe or an early exit in front of that store leaves 0 there", floor=2)
+    from ..engines import trace as _TR13
+    for fn_, arr_i in (("cmb_dataset_ACF", 2), ("cmb_dataset_PACF", 2)):
+        f13 = m.need(fn_)
+        cx13 = FuncCtx(m, f13)
+        an = f13.params[arr_i]["name"]
+        # variable-index stores into the array: harmless for element 0 if the index provably starts above 0 and counts up
+        risky_lines = set()
+        for l_, r_, k_, n_ in inv.stores(f13):
+            l0 = strip(l_, casts=True)
+            if l0["kind"] == "ArraySubscriptExpr" and cx13.canon(kids(l0)[0]) == an and int_value(strip(kids(l0)[1], casts=True)) is None:
+                ix = strip(kids(l0)[1], casts=True)
+                safe = False
+                if ix["kind"] == "DeclRefExpr":
+                    for lp in inv.enclosing_chain(f13, n_):
+                        if lp["kind"] in ("ForStmt", "WhileStmt", "DoStmt"):
+                            iv_, g_ = inv.induction_vars(cx13, f13, lp)
+                            ent = iv_.get(ix["ref"]["name"])
+                            if ent is None:
+                                continue
+                            # the entry value of *this* variable (by declaration, not by name)
+                            e0 = ent[0]
+                            for vd_ in walk(f13.body):
+                                if vd_["kind"] == "VarDecl" and vd_.get("id") == ix["ref"]["id"] and kids(vd_) and \
+                                        int_value(strip(kids(vd_)[0], casts=True)) is not None and \
+                                        not any(w_ is not lp and any(z is vd_ for z in walk(w_)) and any(z is lp for z in walk(w_)) is False
+                                                for w_ in ()):
+                                    asg = [y for y in inv.stores(f13) if strip(y[0], casts=True).get("ref", {}).get("id") == ix["ref"]["id"]
+                                           and not any(z is y[3] for z in walk(lp))]
+                                    if not asg:
+                                        e0 = str(int_value(strip(kids(vd_)[0], casts=True)))
+                            if ent[1] == 1 and re.fullmatch(r"[1-9]\d*", e0 or ""):
+                                safe = True
+                            # counting down to 1: for (i = n; i >= 1; i--) / (i > 0)
+                            if ent[1] == -1 and g_ is not None and g_[0] == ix["ref"]["name"] and \
+                                    ((g_[1] == ">=" and g_[2] == "1") or (g_[1] == ">" and g_[2] == "0")):
+                                safe = True
+                if not safe:
+                    risky_lines.add(n_.get("line"))
+        seen13 = set()
+        state = {"n": 0}
+
+        def reg13(dom, flow, st, tr, why, where, ev, an=an, fn_=fn_, risky_lines=risky_lines, seen13=seen13, state=state):
+            if not why.startswith("return"):
+                return
+            val, at = None, None
+            for e in tr:
+                if e[0] == "store" and e[1] == "%s[0]" % an and e[2] == "=":
+                    val, at = e[3], e[4]
+                elif e[0] == "store" and e[1].startswith(an + "[") and str(e[4]).rsplit(":", 1)[-1] in {str(x) for x in risky_lines}:
+                    val, at = "?", e[4]
+                elif e[0] == "call" and e[1] in ("memset", "cmi_memset") and e[2] and e[2][0] == an:
+                    val, at = e[2][1], e[3]
+                elif e[0] == "call" and e[1] in ("memcpy", "cmi_memcpy", "memmove") and e[2] and e[2][0] == an:
+                    val, at = "?", e[3]
+            key = (val, at)
+            if key in seen13:
+                return
+            seen13.add(key)
+            state["n"] += 1
+            okv = val in ("1", "1.0")
+            r13.instance("%s: a path leaves %s[0] = %s (last written at %s)" % (fn_, an, val, at))
+            if okv:
+                r13.ok()
+            else:
+                rep.finding(r13, fn_, "lag0:not-one", "%s: on a path that returns at %s the last write to %s[0] stores %s (at %s), "
+                            "not 1: the autocorrelation at lag 0 is 1 by definition, also for constant data"
+                            % (fn_, where, an, "nothing" if val is None else val, at), where=at or where)
+                r13.fail()
+        _TR13.run_traces(m, f13, reg13)
+        if state["n"] == 0:
+            raise AnalysisBroken("R-C18-13: no return path of %s was seen" % fn_)
+
+
 
 def run(tier="quick"):
     models = common.load_models(tier)
